@@ -52,7 +52,21 @@ def main(path):
             v.update(dv)
             candidates.append(("default-inputs-%d" % i, v))
     notes = []
-    for name, values in candidates:
+    only = int(sys.argv[2]) if len(sys.argv) > 2 else None
+    for idx, (name, values) in enumerate(candidates):
+        if only is None and idx > 0:
+            # every further attempt runs in a process of its own: a defect that lives in process-wide state (class-level
+            # registries, shared default arguments) must not be masked - or caused - by the attempt before
+            import subprocess
+            pr = subprocess.run([sys.executable, "-W", "ignore", "-m", "vf.replay", path, str(idx)], capture_output=True,
+                                text=True)
+            if pr.returncode == 1:
+                sys.stdout.write(pr.stdout)
+                return 1
+            notes.append((pr.stdout.strip().splitlines() or ["%s: no output" % name])[-1].strip())
+            continue
+        if only is not None and idx != only:
+            continue
         hit, note = attempt(mod, rec, values)
         if hit is not None:
             print("REPRODUCED property=%s signature=%s (%s)" % (rec['property'], rec['signature'], name))
